@@ -3,6 +3,7 @@
    handler id that is not a live authenticated connection (ConnManager hands out fresh ids). *)
 From NW Require Import Base.Bytes Model.SchemaTypes Gen.Schema Model.Codec Model.Ids Model.Server.
 From NW Require Import Proofs.ServerInvBase Proofs.ServerInv Proofs.ServerUniq Proofs.ServerInvCor.
+From NW Require Import Model.ServerX Proofs.ServerXProofs.
 
 (* the model computes: a client connects, identifies and creates a channel *)
 Example C05_model_smoke :
@@ -69,3 +70,13 @@ Proof. exact op_ok_iff. Qed.
 
 Print Assumptions C05_views_agree_reachable.
 Print Assumptions C05_disconnect_cleans_up.
+
+Theorem C05_oversize_outbound_is_a_disconnect :
+  forall (cfg : scfg) (ops : list op) (s : state),
+    run_state_x cfg s ops = run_state cfg s (expand cfg s ops).
+Proof. exact run_state_x_is_plain_ops. Qed.
+
+Theorem C05_invariant_with_oversize_outbound :
+  forall (cfg : scfg) (ops : list op),
+    ops_ok_x cfg init ops -> Inv cfg (run_state_x cfg init ops).
+Proof. exact inv_reachable_x. Qed.
